@@ -397,8 +397,28 @@ fire('c05-walk-target', 'C05',
      [(C, "return self._find_in_dict(creds, path_segments, match)",
        "return self._find_in_dict(target, path_segments, match)")], 'C05.WALK')
 fire('c05-quoted-first-only', 'C05',
-     [(P, "if len(tok) >= 2 and ((tok[0], tok[-1]) in",
-       "if len(tok) >= 2 and ((tok[0], tok[0]) in")], 'C05.QUOTED')
+     [(P, "if len(clean) >= 2 and ((clean[0], clean[-1]) in",
+       "if len(clean) >= 2 and ((clean[0], clean[0]) in")], 'C05.QUOTED')
+# F13 reverted: the quoted test on the word before its trailing parentheses
+# are peeled
+fire('c15-revert-f13', 'C15',
+     [(P, """            if len(clean) >= 2 and ((clean[0], clean[-1]) in
+                                    [('"', '"'), ("'", "'")]):
+                # It's a quoted string
+                yield 'string', clean[1:-1]""",
+       """            if len(tok) >= 2 and ((tok[0], tok[-1]) in
+                                  [('"', '"'), ("'", "'")]):
+                # It's a quoted string
+                yield 'string', tok[1:-1]""")], 'C15.TOKENS(C05.QUOTED)')
+fire('c05-revert-f13', 'C05',
+     [(P, """            if len(clean) >= 2 and ((clean[0], clean[-1]) in
+                                    [('"', '"'), ("'", "'")]):
+                # It's a quoted string
+                yield 'string', clean[1:-1]""",
+       """            if len(tok) >= 2 and ((tok[0], tok[-1]) in
+                                  [('"', '"'), ("'", "'")]):
+                # It's a quoted string
+                yield 'string', tok[1:-1]""")], 'C05.QUOTED')
 fire('c05-missing-attr-true', 'C05',
      [(C, "            test_value = test_value[key]\n        except (KeyError, TypeError):\n            return False",
        "            test_value = test_value[key]\n        except (KeyError, TypeError):\n            return True")], 'C05.DENY')
@@ -430,11 +450,11 @@ fire('c05-raw-match', 'C05',
      [(C, "        path_segments = self.kind.split('.')\n        return self._find_in_dict(creds, path_segments, match)",
        "        path_segments = self.kind.split('.')\n        return self._find_in_dict(creds, path_segments, self.match)")], 'C05.WALK')
 silent('c05-startswith-quoted', ['C05', 'C01', 'C02'],
-       [(P, """            if len(tok) >= 2 and ((tok[0], tok[-1]) in
-                                  [('"', '"'), ("'", "'")]):""",
-         """            if len(tok) >= 2 and (
-                    (tok.startswith('"') and tok.endswith('"')) or
-                    (tok.startswith("'") and tok.endswith("'"))):""")])
+       [(P, """            if len(clean) >= 2 and ((clean[0], clean[-1]) in
+                                    [('"', '"'), ("'", "'")]):""",
+         """            if len(clean) >= 2 and (
+                    (clean.startswith('"') and clean.endswith('"')) or
+                    (clean.startswith("'") and clean.endswith("'"))):""")])
 silent('c05-not-segments', 'C05',
        [(C, "        if len(path_segments) == 0:\n            return match == str(test_value)",
          "        if not path_segments:\n            return str(test_value) == match")])
